@@ -24,7 +24,8 @@ def floors(m, tier):
             "untyped sids": (m.counters.get("untyped", 0), BUDGET[tier] // 20),
             "get_as evaluations": (m.counters.get("get_as", 0), BUDGET[tier]),
             "forced-type sids": (m.counters.get("forced", 0), 50),
-            "query-built sids": (m.counters.get("query_built", 0), 200)}
+            "query-built sids": (m.counters.get("query_built", 0), 200),
+            "path-built sids": (m.counters.get("path_built", 0), 200)}
 
 
 def run(snap, tier, seed, t0, replay):
@@ -35,11 +36,26 @@ def is_empty(x):
     return (not x) and str(x) == "" and x.type == "" and x.fields == {} and len(x) == 0
 
 
-def check_typed(rec, model, Sid, s, natural=True):
+def check_typed(rec, model, Sid, s, natural=True, from_path=None):
     case = {"s": s}
     x = Sid(s)
     if not x:
         return check_untyped(rec, Sid, s)
+    if from_path:
+        # the same entity, but BUILT FROM ITS PATH (this is also how FindInPaths builds its results)
+        c = from_path
+        case["from_path_config"] = c
+        try:
+            p = x.path(c)
+            y = Sid(path=p, config=c) if p is not None else None
+        except Exception:
+            y = None
+        if not y:
+            return x
+        rec.count("path_built")
+        if list(y.fields.items()) != list(x.fields.items()):
+            rec.violation("path_built_field_order", dict(case), "%r vs %r" % (list(y.fields.items()), list(x.fields.items())))
+        x = y
     rec.count("typed")
     if not natural:
         rec.count("forced")
@@ -149,7 +165,7 @@ def worker(args):
     if "replay" in args:
         s = args["replay"]["s"]
         rec.ev()
-        check_typed(rec, model, Sid, s, natural=":" not in s)
+        check_typed(rec, model, Sid, s, natural=":" not in s, from_path=args["replay"].get("from_path_config"))
         fin()
         return rec.result()
     usable = [t for t in model.templates if vocab.usable(t)]
@@ -158,7 +174,10 @@ def worker(args):
         t = usable[it % len(usable)]
         r = rng.random()
         rec.ev()
-        if r < 0.4:
+        if r < 0.08:
+            s = vocab.valid_string(t, rng, pool=gen.SAFE_NAME_POOL)
+            x = check_typed(rec, model, Sid, s, from_path=rng.choice(list(conf.path_configs)))
+        elif r < 0.4:
             s = vocab.valid_string(t, rng)
             x = check_typed(rec, model, Sid, s)
         elif r < 0.75:
